@@ -172,11 +172,18 @@ CLAIMS = {
         note=COMMON_NOTE + "; match_token's abstract contract is justified by the automaton obligations; readline axiom (T-io)"),
     "C19": dict(
         level="other", ref="DESIGN.md 5 C19",
-        text="The Markdown matcher builds its regular expressions from dialect data at run time and iterates over "
-             "regex matches; this is outside the VC generator's subset, so no P obligation is claimed. The property's "
-             "own quantifier is finite and is enumerated completely on the real code against a regex-free oracle "
-             "written from the statement: 80 dialects x all title keywords x depth 1..6 (and 7) x indentations x "
-             "titles, all step keywords x 3 bullets x gaps, prefix-less / decomposed-spelling / cross-role negatives, "
-             "table indentation 0..8 with separator rows; tag lines are bounded (all sequences of up to 3-4 atoms).",
-        note="trusted: the oracle in pyvc/enum_markdown.py; indentation and title text are sampled, not exhaustive"),
+        text="Proved (61 obligations): every Markdown match_* passes exactly the header prefix '#{1,6} blank' / the "
+             "bullet prefix, the keyword list(s) of its role (scenario before outline; given+when+then+and+but in this "
+             "order), the suffix and the token type to the title-line core and reports its keyword, text and column; the "
+             "feature-line flag; a table row is recognised iff the line starts with 2..5 white-space characters then '|' "
+             "and is not a separator row, its items being the plain reader's cells; doc strings open with triple quotes, "
+             "four or three backticks and close only with their own delimiter; match_Language never matches; reset. "
+             "The regular-expression core -- _match_title_line (alternation of escaped keywords built at run time), "
+             "match_TagLine (re.finditer), _is_gfm_table_separator -- is outside the VC generator's subset: it carries "
+             "contracts over ghost functions and is pinned by complete enumeration on the real code against a regex-free "
+             "oracle: 80 dialects x all title keywords x depth 1..6 (and 7) x indentations x titles, all step keywords x "
+             "3 bullets x gaps, prefix-less / decomposed-spelling / cross-role negatives, table indentation 0..8 with "
+             "separator rows (134 k lines); tag lines are bounded (all sequences of up to 3-4 atoms).",
+        note=COMMON_NOTE + "; the oracle in pyvc/enum_markdown.py; indentation and title text of the enumeration are sampled; "
+             "match_Comment / match_Empty of the Markdown matcher are not under contract (they raise AttributeError, see DESIGN 0.7)"),
 }
